@@ -40,7 +40,21 @@ func ValidateTupleForWrite(typesys *typesystem.TypeSystem, tk *openfgav1.TupleKe
 	}
 	// now we assume our tuple is well-formed, it's time to check
 	// the tuple against other model and type-restriction constraints
-	return ValidateTupleForRead(typesys, tk)
+	if err := ValidateTupleForRead(typesys, tk); err != nil {
+		return err
+	}
+
+	// a userset cannot be assigned to itself (`object:id#relation@object:id#relation`): this applies
+	// to contextual tuples as much as to written ones.
+	userObject, userRelation := tuple.SplitObjectRelation(tk.GetUser())
+	if tk.GetRelation() == userRelation && tk.GetObject() == userObject {
+		return &tuple.InvalidTupleError{
+			Cause:    fmt.Errorf("cannot write a tuple that is implicit"),
+			TupleKey: tk,
+		}
+	}
+
+	return nil
 }
 
 // ValidateTupleForRead returns nil if a tuple is valid according to the provided model.
